@@ -100,6 +100,34 @@ theorem embed_symm_orth {m k : Type} [Fintype m] [DecidableEq m] [Fintype k] [De
   · rw [fromBlocks_multiply]
     simp only [Matrix.one_mul, Matrix.mul_zero, Matrix.zero_mul, add_zero, zero_add, hPP, fromBlocks_one]
 
+/-- **sign gauge of a QR factorisation.**  For a diagonal matrix `D` of signs (`d i * d i = 1`):
+    `(Q·D)·(D·R) = Q·R`, `Q·D` is orthogonal iff `Q` is (here: if), and `D·R` is upper triangular
+    with `R`.  So every clause of the property (product, orthogonality, triangularity) is invariant
+    under flipping column `k` of `Q` together with row `k` of `R`; the property does not fix the
+    signs of `diag R`, and the comparator compares implementation and model in the gauge `R k k ≥ 0`. -/
+theorem qr_sign_gauge {n : Type} [Fintype n] [LinearOrder n]
+    (Q R : Matrix n n ℚ) (d : n → ℚ) (hd : ∀ i, d i * d i = 1) :
+    (Q * Matrix.diagonal d) * (Matrix.diagonal d * R) = Q * R ∧
+    (Qᵀ * Q = 1 → (Q * Matrix.diagonal d)ᵀ * (Q * Matrix.diagonal d) = 1) ∧
+    ((∀ i j, j < i → R i j = 0) → ∀ i j, j < i → (Matrix.diagonal d * R) i j = 0) ∧
+    (∀ k, (Matrix.diagonal d * R) k k = d k * R k k) := by
+  have hDD : Matrix.diagonal d * Matrix.diagonal d = (1 : Matrix n n ℚ) := by
+    rw [Matrix.diagonal_mul_diagonal]
+    simp only [hd]
+    exact Matrix.diagonal_one
+  refine ⟨?_, ?_, ?_, ?_⟩
+  · calc Q * Matrix.diagonal d * (Matrix.diagonal d * R) = Q * (Matrix.diagonal d * Matrix.diagonal d) * R := by
+          simp only [Matrix.mul_assoc]
+      _ = Q * R := by rw [hDD, Matrix.mul_one]
+  · intro hQ
+    calc (Q * Matrix.diagonal d)ᵀ * (Q * Matrix.diagonal d) = Matrix.diagonal d * (Qᵀ * Q) * Matrix.diagonal d := by
+          simp only [transpose_mul, Matrix.diagonal_transpose, Matrix.mul_assoc]
+      _ = 1 := by rw [hQ, Matrix.mul_one, hDD]
+  · intro hR i j hji
+    rw [Matrix.diagonal_mul, hR i j hji, mul_zero]
+  · intro k
+    rw [Matrix.diagonal_mul]
+
 /-! ### one step `A ↦ R·Q` of the unshifted QR algorithm is an orthogonal similarity -/
 
 theorem qrStep_similar (A Q R : Matrix n n ℚ) (hA : Q * R = A) (hQ : Qᵀ * Q = 1) :
